@@ -61,6 +61,11 @@ func scenarios(prop string, thorough bool) []*Scenario {
 		alpha = append(alpha, "ping", "protoconf", "addr[1]", "inv[tx0]", "unknown[1025]")
 		for _, role := range []netsim.Options{{TxManager: true}, {VerifyOnly: true}} {
 			r = append(r, &Scenario{Name: roleName(role) + "/from-connect", Opt: role, Alphabet: alpha, Depth: pick(5, 6), oracle: oracleC03})
+			// the same with a repository that already holds the headers some replies start with
+			pre := role
+			pre.Preload = true
+			r = append(r, &Scenario{Name: roleName(role) + "/known-headers/after-handshake", Opt: pre, Prefix: []string{"version", "verack"},
+				Alphabet: append(append([]string{}, headersLetters...), "ping", "addr[1]"), Depth: pick(2, 3), oracle: oracleC03})
 		}
 	case "C14":
 		ready := []string{"version", "verack", "headers[bsv-split]"}
